@@ -376,6 +376,18 @@ func (st *ConcState) IsNil(v ssa.Value) (isNil, known bool) {
 	if n, ok := st.nils[v]; ok {
 		return n, true
 	}
+	// ... or of what the register stands for on this path
+	for k, w := 0, v; k < 8; k++ {
+		nx := st.alias[w]
+		if nx == nil {
+			break
+		}
+		w = stripConv(nx)
+		if n, ok := st.nils[w]; ok {
+			return n, true
+		}
+		v = w
+	}
 	switch x := v.(type) {
 	case *ssa.Const:
 		if x.Value == nil {
@@ -560,6 +572,9 @@ func (st *ConcState) eval(v ssa.Value, d int) (int64, bool) {
 	}
 	return 0, false
 }
+
+// nilFact: suffix of the fmem key that remembers whether a pointer-like field was found nil (1) or non-nil (0).
+const nilFact = "#nil"
 
 type ConcCfg struct {
 	// Conc fixes values by their rendering (in the root function's terms).
@@ -806,6 +821,18 @@ func ConcPaths(fn *ssa.Function, cfg ConcCfg) (seqs []string, truncated bool) {
 			}
 			break
 		}
+		if ex, ok := c.(*ssa.Extract); ok && ex.Index == 1 && pol {
+			// v, ok := x.(I) succeeded: v is a non-nil interface value
+			if ta, isTA := ex.Tuple.(*ssa.TypeAssert); isTA && ta.CommaOk && ta.Referrers() != nil {
+				if _, isIface := types.Unalias(ta.AssertedType).Underlying().(*types.Interface); isIface {
+					for _, r := range *ta.Referrers() {
+						if e0, isE := r.(*ssa.Extract); isE && e0.Index == 0 {
+							ns.nils[e0] = false
+						}
+					}
+				}
+			}
+		}
 		if ld, ok := c.(*ssa.UnOp); ok && ld.Op == token.MUL {
 			if _, isFA := ld.X.(*ssa.FieldAddr); isFA {
 				if ns.fmem == nil {
@@ -826,6 +853,32 @@ func ConcPaths(fn *ssa.Function, cfg ConcCfg) (seqs []string, truncated bool) {
 			}
 			if IsNilConst(y) {
 				ns.nils[stripConv(x)] = eq
+				// ... and so is whatever that register stands for on this path
+				for k, v := 0, stripConv(x); k < 8; k++ {
+					nx := st.alias[v]
+					if nx == nil {
+						break
+					}
+					v = stripConv(nx)
+					if _, isC := v.(*ssa.Const); isC {
+						break
+					}
+					ns.nils[v] = eq
+				}
+				if ld, ok := stripConv(x).(*ssa.UnOp); ok && ld.Op == token.MUL {
+					if _, isFA := ld.X.(*ssa.FieldAddr); isFA {
+						// what the field holds is (not) nil until something may change it: later loads of the
+						// same field on this path see the same
+						if ns.fmem == nil {
+							ns.fmem = map[string]int64{}
+						}
+						if eq {
+							ns.fmem[addrKey(st, ld.X)+nilFact] = 1
+						} else {
+							ns.fmem[addrKey(st, ld.X)+nilFact] = 0
+						}
+					}
+				}
 			} else if eq {
 				if _, isC := x.(*ssa.Const); isC {
 					x, y = y, x
@@ -1076,6 +1129,7 @@ func ConcPaths(fn *ssa.Function, cfg ConcCfg) (seqs []string, truncated bool) {
 				} else if _, isFA := x.Addr.(*ssa.FieldAddr); isFA {
 					ad := addrKey(st, x.Addr)
 					st = st.clone()
+					delete(st.fmem, ad+nilFact)
 					if kv, ok := st.eval(x.Val, 0); ok {
 						if st.fmem == nil {
 							st.fmem = map[string]int64{}
@@ -1192,6 +1246,10 @@ func ConcPaths(fn *ssa.Function, cfg ConcCfg) (seqs []string, truncated bool) {
 					}
 				} else if _, isFA := x.X.(*ssa.FieldAddr); isFA && x.Op == token.MUL && (len(st.fmem) > 0 || len(st.fvals) > 0) {
 					ad := addrKey(st, x.X)
+					if nv, has := st.fmem[ad+nilFact]; has {
+						st = st.clone()
+						st.nils[x] = nv == 1
+					}
 					if kv, has := st.fmem[ad]; has {
 						st = st.clone()
 						st.ints[x] = kv
@@ -1984,13 +2042,25 @@ func (st *ConcState) FieldsOf(obj ssa.Value) map[string]string {
 	out := map[string]string{}
 	prefix := strings.TrimSuffix(st.fieldKey(obj, ""), ".") + "."
 	for k, n := range st.fmem {
-		if strings.HasPrefix(k, prefix) {
+		if strings.HasPrefix(k, prefix) && !strings.HasSuffix(k, nilFact) {
 			out[k[len(prefix):]] = strconv.FormatInt(n, 10)
 		}
 	}
 	for k, v := range st.fvals {
 		if strings.HasPrefix(k, prefix) {
 			out[k[len(prefix):]] = st.Desc(v)
+		}
+	}
+	return out
+}
+
+// FieldValsOf: like FieldsOf, the values themselves (fields holding something other than an evident integer).
+func (st *ConcState) FieldValsOf(obj ssa.Value) map[string]ssa.Value {
+	out := map[string]ssa.Value{}
+	prefix := strings.TrimSuffix(st.fieldKey(obj, ""), ".") + "."
+	for k, v := range st.fvals {
+		if strings.HasPrefix(k, prefix) {
+			out[k[len(prefix):]] = v
 		}
 	}
 	return out
